@@ -149,7 +149,9 @@ class Typed(Core):
         schema element.
 
         """
-        ns = content.type.namespace()
+        # Without a prefix the namespace would be written as a default
+        # namespace, which unqualified child elements then inherit.
+        ns = content.type.namespace("ns1")
         if content.type.form_qualified:
             node = Element(content.tag, ns=ns)
             if ns[0]:
